@@ -79,6 +79,7 @@ type Env struct {
 	// RenderOutput turns a stored response output into the module's abstract
 	// response record (kind, x).
 	RenderOutput func(output string) (kind string, x int64)
+	saved        *ckpt
 }
 
 func NewEnv(c *chain.Chain, service string, provs []string) *Env {
@@ -87,7 +88,40 @@ func NewEnv(c *chain.Chain, service string, provs []string) *Env {
 	for n, a := range c.Accts {
 		e.Names[a.Addr.String()] = n
 	}
+	c.BundleHook = e.bundleHook
 	return e
+}
+
+// bundleHook keeps the naming of contexts (assigned in order of first appearance in a
+// projection) independent of projections taken inside a bundled transaction that is rolled
+// back afterwards (chain.BundlePct).
+func (e *Env) bundleHook(phase string) {
+	switch phase {
+	case "start":
+		k := &ckpt{names: map[string]string{}, ids: map[string][]byte{}, last: map[string]string{}, n: e.NCtx}
+		for a, b := range e.CtxNames {
+			k.names[a] = b
+		}
+		for a, b := range e.CtxIDs {
+			k.ids[a] = b
+		}
+		for a, b := range e.LastReq {
+			k.last[a] = b
+		}
+		e.saved = k
+	case "abort":
+		if e.saved != nil {
+			e.CtxNames, e.CtxIDs, e.LastReq, e.NCtx = e.saved.names, e.saved.ids, e.saved.last, e.saved.n
+			e.saved = nil
+		}
+	}
+}
+
+type ckpt struct {
+	names map[string]string
+	ids   map[string][]byte
+	last  map[string]string
+	n     int64
 }
 
 func (e *Env) NameOf(bech string) string {
